@@ -73,6 +73,8 @@ ZOutOk(r) ==
   /\ (zin.opt = PreserveSum /\ CoversAll(GI, GO, zin.vals)) =>
         /\ ZAbs(SumSeq(r.vals) - FxK * SumSeq(zin.vals)) <= NVox(GO) \div 2 + 2 + (FxK * SumSeq(zin.vals)) \div 4096
         /\ zin.pos => (r.pos /\ \A a \in Ax : 2 * ZAbs(r.cog[a] - zin.cog[a]) <= FxK * (GI[a].vox + GO[a].vox) + 2 * CogTol)
+        \* shifts (zoom 1 along every axis, fractional offsets): within half a voxel (ComKeptTight1)
+        /\ (zin.pos /\ \A a \in Ax : zin.P[a] = zin.Q[a]) => \A a \in Ax : 2 * ZAbs(r.cog[a] - zin.cog[a]) <= FxK * GO[a].vox + 2 * CogTol
 
 (* --------------------------- random instances ---------------------------- *)
 \* lengths in mm * 2^10, values * 2^8
@@ -114,6 +116,8 @@ ROutOk(r) ==
   /\ (zin.opt = PreserveSum /\ \A a \in Ax : CoversWithMargin(gi[a], go[a], Support(gi, zin.vals, a))) =>
         /\ ZAbs(SumSeq(r.vals) - SumSeq(zin.vals)) <= NVox(go) \div 2 + 2 + SumSeq(zin.vals) \div 4096
         /\ zin.pos => (r.pos /\ \A a \in Ax : 2 * ZAbs(r.cog[a] - zin.cog[a]) <= gi[a].vox + go[a].vox + 8)
+        \* shifts: within half a voxel
+        /\ (zin.pos /\ \A a \in Ax : zin.zf[a] = 65536) => \A a \in Ax : 2 * ZAbs(r.cog[a] - zin.cog[a]) <= go[a].vox + 8
   \* "value-preserving zoom keeps uniform regions uniform": output voxels inside the uniform box keep its value
   /\ (zin.opt = PreserveValues /\ zin.hasBox) =>
         \A j \in Idx3(go) :
@@ -130,11 +134,41 @@ ROutOk(r) ==
         /\ \A a \in Ax : ZAbs(r.org[a] - refs["zoom3"].org[a]) <= 1 /\ ZAbs(r.vox[a] - refs["zoom3"].vox[a]) <= 1
         /\ \A i \in 1..Len(r.vals) : ZAbs(r.vals[i] - refs["zoom3"].vals[i]) <= RValTol(refs["zoom3"].vals[i])
 
+(* ------------- zoom_viewgram(s): tangential zoom of arc-corrected viewgrams ------------- *)
+\* "zoom scales the projection bins (zoom larger than 1 means more detail, so smaller pixels)"; "x_offset_in_mm /
+\* y_offset_in_mm: coordinates of new origin"; "translation in 'image' space which gives a sin shift of origin in the
+\* s-coordinate": offset = x cos(phi) + y sin(phi) (view 0: x, view nv/2: y); "the (projection of the) centre of the
+\* scanner axis is supposed to be at tang_pos_num = 0"; overlap interpolation: x_in = x_out / zoom + offset.
+\* Every row (axial position) is the 1-D interpolation of Zoom.tla; the result is count preserving (no scaling).
+VOff(r) == IF r.view = 0 THEN r.o[1] ELSE r.o[2]
+VGi(r) == [lo |-> r.lo, hi |-> r.hi, org |-> 0, vox |-> 4 * r.P]
+VGo(r) == [lo |-> r.olo, hi |-> r.ohi, org |-> VOff(r) * r.P, vox |-> 4 * r.Q]
+VInOk(r) ==
+  /\ <<r.P, r.Q>> \in Zooms /\ r.lo <= r.hi /\ r.olo <= r.ohi /\ r.minAx <= r.maxAx
+  /\ (r.view = 0 \/ (r.nv % 2 = 0 /\ r.view = r.nv \div 2))
+  /\ Len(r.vals) = (r.maxAx - r.minAx + 1) * (r.hi - r.lo + 1)
+  /\ \A i \in 1..Len(r.vals) : r.vals[i] \in 0..15
+VOutOk(r) ==
+  LET gi == VGi(zin)  go == VGo(zin)  nt == zin.hi - zin.lo + 1  ont == zin.ohi - zin.olo + 1 IN
+  /\ ~r.err
+  /\ r.lo = zin.olo /\ r.hi = zin.ohi /\ r.minAx = zin.minAx /\ r.maxAx = zin.maxAx /\ r.view = zin.view /\ r.seg = zin.seg
+  /\ r.vox = 4 * zin.Q /\ r.res <= ResTol
+  /\ Len(r.vals) = (zin.maxAx - zin.minAx + 1) * ont
+  /\ \A a \in 0..(zin.maxAx - zin.minAx) : \A j \in zin.olo..zin.ohi :
+        LET f == [ i \in zin.lo..zin.hi |-> zin.vals[a * nt + (i - zin.lo) + 1] ]
+            num == Interp1Num(f, gi, go, j) IN
+        ZAbs(r.vals[a * ont + (j - zin.olo) + 1] * Den1(gi) - num * FxK) <= ValTolTimesDen(num, Den1(gi))
+  \* the variants are the same arithmetic
+  /\ r.call # "vg_inplace" => r.vals = refs["vg_inplace"]
+
 Calls == {"zoom3", "zoom3_inplace", "into", "axes", "zoom2", "zoom2_inplace"}
 Explains(r) ==
   CASE r.e = "ZIn" -> ZInOk(r)
     [] r.e = "ZOut" -> r.call \in Calls /\ zin # None /\ zin.e = "ZIn" /\ (r.call # "zoom3" => "zoom3" \in DOMAIN refs) /\ ZOutOk(r)
     [] r.e = "RIn" -> RInOk(r)
+    [] r.e = "VIn" -> VInOk(r)
+    [] r.e = "VOut" -> r.call \in {"vg_inplace", "vg_into", "vgs"} /\ zin # None /\ zin.e = "VIn"
+                       /\ (r.call # "vg_inplace" => "vg_inplace" \in DOMAIN refs) /\ VOutOk(r)
     [] r.e = "ROut" -> r.call \in Calls /\ zin # None /\ zin.e = "RIn" /\ (r.call # "zoom3" => "zoom3" \in DOMAIN refs) /\ ROutOk(r)
     [] OTHER -> FALSE
 Classify(r) == "new"
@@ -149,12 +183,13 @@ Next == /\ l <= Len(TraceLog)
                    /\ exp' = [ j \in Idx3(go) |-> ZoomNum(f, gi, go, r.opt, j) ]
                    /\ den' = ZoomDen(gi, go, r.opt)
                    /\ refs' = <<>>
-              ELSE IF r.e \in {"ZIn", "RIn"}
+              ELSE IF r.e \in {"ZIn", "RIn", "VIn"}
               THEN /\ zin' = IF okr THEN r ELSE None
                    /\ GI' = <<>> /\ GOz' = <<>> /\ exp' = <<>> /\ den' = 1 /\ refs' = <<>>
               ELSE /\ UNCHANGED <<zin, GI, GOz, exp, den>>
                    /\ refs' = IF r.e = "ZOut" /\ ~r.err /\ r.call \in {"zoom3", "zoom2"} THEN (r.call :> r.vals) @@ refs
                               ELSE IF r.e = "ROut" /\ ~r.err /\ r.call \in {"zoom3", "zoom2"} THEN (r.call :> r) @@ refs
+                              ELSE IF r.e = "VOut" /\ ~r.err /\ r.call = "vg_inplace" THEN (r.call :> r.vals) @@ refs
                               ELSE refs
            /\ bad' = IF okr THEN bad
                      ELSE IF Len(bad) < 500 THEN Append(bad, <<l, Classify(r)>>) ELSE bad
